@@ -251,12 +251,12 @@ def r4_prepare(run, w):
   # adjustments -> action
   a2a_fi = w.fn("column._adjustments_to_action").fi
   a2a = [(flow.node_of(c), c) for c in calls_in(fn.node)
-         if (fn.name(c.func) or dotted(c.func)) == "_adjustments_to_action"]
+         if H.calls_anchor(w, fn, c, "column._adjustments_to_action")]
   if len(a2a) != 1:
     raise AnalysisError("PositionColumn.prepare_new_values: _adjustments_to_action not found")
   (an, ac) = a2a[0]
-  b = H.bind_args(ac, a2a_fi, skip_self=False)
-  a_node, a_pairs = [b.get(x) for x in a2a_fi.params()[:2]]
+  b = H.bind_args(ac, a2a_fi)
+  a_node, a_pairs = [b.get(x) for x in H._np(a2a_fi)[:2]]
   pairs = H.resolve(flow, a_pairs, an) if a_pairs is not None else None
   ok = a_node is not None and fn.name(a_node) == "self.node" and \
       isinstance(pairs, ast.ListComp) and len(pairs.generators) == 1 and \
